@@ -1,10 +1,79 @@
-(** C04 — Every in-flight entry is resolved exactly once and independently of the others. *)
-From Wasp Require Import Model.Base Spec.AckSpec Model.AckQueue Proofs.AckSpecFacts.
+(** C04 — Every in-flight entry is resolved exactly once and independently of the others.
+    Statements only; proofs are [exact]s of lemmas under Proofs/.
+
+    [q_run] is the implementation model (wasp/ack/queue.go over wasp/expiration: a hash of
+    pending messages plus a heap of one-second buckets); [spec_run] is the specification
+    (Spec/AckSpec.v: one finite map; a sweep at [now] reports every entry whose deadline
+    rounded to the second lies strictly before [now], ordered by deadline, ties by age).
+    Operations: QInsert prefix id packet deadline reg / QAck prefix id type / QSweep now, over
+    any sessions and identifiers, with equal, same-second, past and future deadlines. *)
+From Wasp Require Import Model.Base Spec.AckSpec Model.AckQueue Proofs.StableInsert Proofs.AckSpecFacts Proofs.AckRefine.
 From stdpp Require Import list.
 Open Scope Z_scope.
 
-(** "deadlines are honoured to the second": an entry is due at the first sweep strictly after
-    its deadline rounded to the nearest second, which is within half a second of the deadline. *)
+(** Return codes and callback sequences of the implementation model equal the
+    specification's, step for step, for every history. *)
+Theorem ackqueue_refines_spec : ∀ os, (q_run qempty os).2 = (spec_run [] os).2.
+Proof. intros os. apply run_refines, R_init. Qed.
+Print Assumptions ackqueue_refines_spec.
+
+(** Each registration (identified by its unique registration number) is reported to its
+    callback at most once in the whole history, and only registrations that were made are
+    reported. *)
+Theorem at_most_one_outcome : ∀ os, NoDup (flat_map op_reg os) →
+  NoDup (fired (q_run qempty os).2) ∧ ∀ r, r ∈ fired (q_run qempty os).2 → r ∈ flat_map op_reg os.
+Proof.
+  intros os H. rewrite ackqueue_refines_spec. destruct (fired_once os [] (NoDup_nil_2) H) as [H1 H2]. done.
+Qed.
+Print Assumptions at_most_one_outcome.
+
+(** ... and exactly one once a matching acknowledgement or a sweep past the rounded deadline
+    occurs: the callback an operation runs for a pending entry is dictated by that entry and
+    the operation alone ([out1]: 'acknowledged' iff the expected packet type for the same
+    session and identifier arrives, 'expired' iff a sweep finds round(deadline) < now), and no
+    other callback is run. *)
+Theorem outcome_fires : ∀ k s o e b, sfind k s = Some e →
+  out1 k (Some e) o = Some (ereg e, b) → (ereg e, b) ∈ (spec_step s o).2.2.
+Proof. exact out_key_fires. Qed.
+Print Assumptions outcome_fires.
+Theorem outcome_only : ∀ s o r b, (r, b) ∈ (spec_step s o).2.2 →
+  ∃ e, e ∈ s ∧ ereg e = r ∧ out1 (ekey e) (Some e) o = Some (r, b).
+Proof. exact out_key_only. Qed.
+Print Assumptions outcome_only.
+
+(** "deadlines are honoured to the second" *)
 Theorem expiry_window : ∀ d, round_s d - sec / 2 ≤ d ∧ d < round_s d + sec / 2.
 Proof. exact round_window. Qed.
 Print Assumptions expiry_window.
+
+(** A duplicate identifier is rejected without disturbing the existing entry (nor any other). *)
+Theorem duplicate_rejected : ∀ s pfx mid p d r e, sfind (pfx, mid) s = Some e →
+  spec_step s (QInsert pfx mid p d r) = (s, ((spec_step s (QInsert pfx mid p d r)).2.1, [])) ∧
+  (mid ≠ 0 → expected p ≠ None → (spec_step s (QInsert pfx mid p d r)).2.1 = RDup).
+Proof. exact duplicate_step. Qed.
+Print Assumptions duplicate_rejected.
+
+(** Independence: the pending entry of a key after any history, and the sequence of outcomes
+    of that key, equal those in the history restricted to the operations on that key plus
+    the sweeps: acknowledging, expiring or rejecting another entry never cancels, fires or
+    delays this one. *)
+Theorem isolation : ∀ k os s, NoDup (keys s) →
+  sfind k (spec_run s os).1 = sfind k (spec_run s (restrict k os)).1 ∧
+  ktrace k s os = ktrace k s (restrict k os).
+Proof. intros k os s H. split; [by apply isolation_state|by apply isolation_outcomes]. Qed.
+Print Assumptions isolation.
+Theorem entry_evolves_alone : ∀ k s o, NoDup (keys s) → sfind k (spec_step s o).1 = step1 k (sfind k s) o.
+Proof. exact step_key. Qed.
+Print Assumptions entry_evolves_alone.
+
+(** non-vacuity: three entries in the same second (two with equal deadlines), a wrong-type
+    acknowledgement, a duplicate, an acknowledgement, then sweeps *)
+Example c04_history :
+  let t := 1600000000000000000 in
+  let os := [QInsert "s1" 1 (IPublish 1) (t + 250000000) 1; QInsert "s2" 1 (IPublish 2) (t + 250000000) 2;
+             QInsert "s1" 2 (IPublish 1) (t + 100000000) 3; QInsert "s1" 1 (IPublish 1) (t + 9000000000) 4;
+             QAck "s1" 1 PUBREC true; QAck "s2" 1 PUBREC true; QSweep t; QSweep (t + 1); QSweep (t + 9000000000)] in
+  (q_run qempty os).2 =
+    [(ROk, []); (ROk, []); (ROk, []); (RDup, []); (RUnexpected, []); (ROk, [(2%N, false)]);
+     (ROk, []); (ROk, [(3%N, true); (1%N, true)]); (ROk, [])].
+Proof. vm_compute. reflexivity. Qed.
